@@ -218,6 +218,11 @@ def run_c06(ctx, cases, ref=False):
             dist["sx:" + c["sx"]] += 1
             dist["noise_free" if c["noise_free"] else "noisy"] += 1
         dist["xrange" if c["xrange"] else "whole"] += 1
+        if c["xrange"]:
+            if c["xrange"][0] in c["x"]:
+                dist["xrange:low-bound-on-a-data-point"] += 1
+            if c["xrange"][1] in c["x"]:
+                dist["xrange:high-bound-on-a-data-point"] += 1
         if "exception" in o:
             raised.append((c, o))
             continue
